@@ -39,10 +39,11 @@ theorem gen_server_names_distinct (s : Scenario) : ((gen s).servers.map fun sv =
 
 /-- the same on the rendered directives: no (listen address, server_name) pair occurs twice among ALL server blocks
 (default servers and the two unix-socket servers included), and no address has two `default_server`s -/
-theorem render_server_names_distinct (s : Scenario) (order : List Nat) (hf : inFragment s = true) (hs : namesSafe s = true) :
+theorem render_server_names_distinct (s : Scenario) (order : List Nat) (hf : inFragment s = true) (hs : namesSafe s = true)
+    (hp : portsOK s = true) :
     ((blocksNamed "server" (render (genR s order))).flatMap srvPairs).Nodup ∧
     ((blocksNamed "server" (render (genR s order))).flatMap defaultListens).Nodup := by
-  have h := goodConf_genR order hf hs
+  have h := goodConf_genR order hf hs hp
   rw [servers_of_render]
   exact ⟨pairs_nodup h, defaults_nodup h⟩
 
@@ -85,7 +86,8 @@ theorem gen_external_locations_distinct (s : Scenario) (hf : inFragment s = true
     (and there is no malformed reference);
 (2) the value of every `set $match_key` is the key of exactly one entry of the emitted matches map, and
 (3) every redirect path of that entry is an `internal` location of the same server. -/
-theorem render_refs_defined (s : Scenario) (order : List Nat) (hf : inFragment s = true) (hs : namesSafe s = true) :
+theorem render_refs_defined (s : Scenario) (order : List Nat) (hf : inFragment s = true) (hs : namesSafe s = true)
+    (hp : portsOK s = true) :
     let c := genR s order
     let splitVars := (blocksNamed "split_clients" (render c)).map splitVar
     ∀ sv ∈ c.servers, ∀ l ∈ blocksNamed "location" (body (renderServer sv)),
@@ -96,7 +98,7 @@ theorem render_refs_defined (s : Scenario) (order : List Nat) (hf : inFragment s
         ∃ paths, (k, paths) ∈ matchKeysOf c ∧
           ∀ p ∈ paths, ("P".toList, p) ∈ ((blocksNamed "location" (body (renderServer sv))).filter isInternal).map locKeyL) := by
   intro c splitVars sv hsv l hl
-  have h : GoodConf c := goodConf_genR order hf hs
+  have h : GoodConf c := goodConf_genR order hf hs hp
   have hsv' : splitVars = (splitDirs c).map splitVar := by simp only [splitVars, splits_of_render]
   rw [locs_of_renderServer] at hl ⊢
   refine ⟨?_, ?_⟩
@@ -156,14 +158,29 @@ theorem render_percentages_valid (s : Scenario) (order : List Nat) :
 
 /-! ## 5. Well-formedness -/
 
-/-- MAIN THEOREM: on what the generator renders for a scenario of the fragment with safe names, the structural judge
-`wfDirs` (the clauses of Spec/WellFormedConf about duplicate (listen, server_name) pairs, default_server, duplicate
-locations, `$match_key` keys and internal redirect targets, split_clients variable names, duplicate definitions and
-percentages, and the variables of `proxy_pass`) finds NO issue. The same `wfDirs` is run on every real http.conf next to
-the big judge (evidence: `wfDirs_vs_big_judge_*`). -/
-theorem render_wellformed_fragment (s : Scenario) (order : List Nat) (hf : inFragment s = true) (hs : namesSafe s = true) :
-    wfDirs (render (genR s order)) (matchKeysOf (genR s order)) = [] :=
-  wf_of_good (goodConf_genR order hf hs)
+/-- MAIN THEOREM: on what the generator renders for a scenario of the fragment with safe names and TCP listener ports,
+the structural judge `wfDirs` (the clauses of Spec/WellFormedConf about duplicate (listen, server_name) pairs,
+default_server, duplicate locations, `$match_key` keys and internal redirect targets, split_clients variable names,
+duplicate definitions and percentages, the variables of `proxy_pass`, and the address and parameters of every `listen`)
+finds NO issue. The same `wfDirs` is run on every real http.conf next to the big judge (evidence: `wfDirs_vs_big_judge_*`). -/
+theorem render_wellformed_fragment (s : Scenario) (order : List Nat) (hf : inFragment s = true) (hs : namesSafe s = true)
+    (hp : portsOK s = true) : wfDirs (render (genR s order)) (matchKeysOf (genR s order)) = [] :=
+  wf_of_good (goodConf_genR order hf hs hp)
+
+/-- every `listen` of every rendered server block has an address NGINX accepts (`port` / `[::]:port` with a port in
+1..65535, or `unix:path`) and known parameters -/
+theorem render_listen_valid (s : Scenario) (order : List Nat) (hf : inFragment s = true) (hs : namesSafe s = true)
+    (hp : portsOK s = true) :
+    ∀ sv ∈ blocksNamed "server" (render (genR s order)), ∀ l ∈ named "listen" (body sv),
+      NGF.WF.listenWhy (l.args.map (·.1)) = none := by
+  intro sv hsv l hl
+  have h := listenIssues_servers (goodConf_genR order hf hs hp)
+  rw [← servers_of_render, List.flatMap_eq_nil_iff] at h
+  have := List.flatMap_eq_nil_iff.mp (h sv hsv) l hl
+  unfold listenIssue at this
+  cases hw : NGF.WF.listenWhy (l.args.map (·.1)) with
+  | none => rfl
+  | some why => rw [hw] at this; simp at this
 
 /-! ## 6. Non-vacuity, and the hypotheses are needed -/
 
@@ -193,7 +210,7 @@ def sCollide : Scenario :=
         [⟨[⟨false, S "/two", [], [], []⟩], .forward [⟨S "y_svc0_80", 1, true⟩, ⟨S "y_svc1_80", 3, true⟩]⟩], true⟩] }
 
 -- the hypotheses of the theorems are satisfiable by a non-trivial scenario …
-#guard inFragment sOK && namesSafe sOK
+#guard inFragment sOK && namesSafe sOK && portsOK sOK
 #guard (render (genR sOK [8080, 80])).length == 8 && (matchKeysOf (genR sOK [8080, 80])).length == 2
 #guard (wfDirs (render (genR sOK [8080, 80])) (matchKeysOf (genR sOK [8080, 80]))).isEmpty
 -- … and each known finding is inside the fragment, violates `namesSafe`, and makes the judge fail
@@ -202,6 +219,12 @@ def sCollide : Scenario :=
   ["variable-name-not-lexable", "unknown-variable", "unknown-variable", "unknown-variable", "unknown-variable"]
 #guard inFragment sCollide && !namesSafe sCollide
 #guard (wfDirs (render (genR sCollide [])) (matchKeysOf (genR sCollide []))).map (·.clause) == ["duplicate-variable-definition"]
+
+/-- a listener port outside 1..65535 (not admitted by the CRD) -/
+def sPort : Scenario :=
+  { sOK with gateways := sOK.gateways.map fun g => { g with listeners := g.listeners.map fun l => { l with port := l.port + 70000 } } }
+#guard inFragment sPort && namesSafe sPort && !portsOK sPort
+#guard ((wfDirs (render (genR sPort [])) (matchKeysOf (genR sPort []))).map (·.clause)).eraseDups == ["bad-listen"]
 
 end examples
 
@@ -472,5 +495,17 @@ theorem render_templates_pinned :
        "return 500;",
        "}"] :=
   ⟨rfl, rfl⟩
+
+/-- WITNESS: `portsOK` cannot be dropped (port 70080), and the listen clause rejects the address of the seeded change
+C03-r3m3 (`[::]:` in front of a unix socket) while it accepts what the templates print for sockets and ports -/
+theorem render_listen_witnesses :
+    wfDirs [renderDefault 70080] [] =
+      [⟨"bad-listen", "listen 70080 default_server: invalid address or port in \"70080\""⟩,
+       ⟨"bad-listen", "listen [::]:70080 default_server: invalid address or port in \"[::]:70080\""⟩] ∧
+    NGF.WF.listenWhy ["[::]:unix:/var/run/nginx/https443.sock".toList, "ssl".toList, "default_server".toList] =
+      some "invalid address or port in \"[::]:unix:/var/run/nginx/https443.sock\"" ∧
+    NGF.WF.listenWhy ["unix:/var/run/nginx/https443.sock".toList, "ssl".toList, "default_server".toList, "proxy_protocol".toList] = none ∧
+    NGF.WF.listenWhy ["[::]:443".toList, "ssl".toList] = none := by
+  decide +kernel
 
 end NGF.Props.C03Render
